@@ -144,10 +144,14 @@ def rule_R(ck, lib, RID):
                 ck.judge(ok, RID, key, "Incomplete: silent, returns the input unchanged",
                          "Incomplete path must report nothing and return the input unchanged (reports: %d, exit: %s %s)" % (len(hs), x.kind, show_term(x.value) if x.value else ""), where, data)
             elif d.get("incomplete") is False:
-                ok1 = len(hs) == 1 and is_converted(hs[0][2][-1], rs.errp)
-                ck.judge(ok1, RID, key + ":report", "exactly one handle_error(Error::from(parse error))",
-                         "parse-error path reports %d times%s" % (len(hs), (" with argument " + show_term(hs[0][2][-1])) if hs else ""), where, data)
                 ok2, why = skips_message(nxt, inp, x, rs.ps, lib)
+                ok1 = len(hs) == 1 and is_converted(hs[0][2][-1], rs.errp)
+                if not hs and ok2 and why.startswith("no terminator in the input") and x.kind == "return" and nxt == inp:
+                    # the faulty message is not complete yet (outside the statement): handing it back unreported, to be
+                    # reported when its terminator is there, is as good as reporting it now
+                    ok1 = True
+                ck.judge(ok1, RID, key + ":report", "exactly one handle_error(Error::from(parse error))" if hs else "unterminated faulty tail handed back unreported",
+                         "parse-error path reports %d times%s" % (len(hs), (" with argument " + show_term(hs[0][2][-1])) if hs else ""), where, data)
                 if x.kind == "return" and nxt == inp:
                     why = "returns the unadvanced input: the faulty message stays at the front of the buffer, so a streaming caller re-parses and re-reports it and later messages never run"
                 ck.judge(ok2, RID, key + ":skip", why, why, where, data)
